@@ -21,7 +21,7 @@ def names_st(draw, d, kinds=('str', 'int', 'float', 'int+float', 'mixed')):
 
 
 @st.composite
-def model_st(draw, d, multi=True, allow_ignore=True):
+def model_st(draw, d, multi=True, allow_ignore=True, options=False):
     nout = draw(st.sampled_from([1, 1, 1, 2, 3])) if multi else 1
     labels = ['output'] if nout == 1 and draw(st.booleans()) else draw(
         st.lists(st.sampled_from(LABELS), min_size=nout, max_size=nout, unique=True))
@@ -40,7 +40,18 @@ def model_st(draw, d, multi=True, allow_ignore=True):
         if i > 0 and live and draw(st.booleans()):
             gate = [draw(st.sampled_from(live)), draw(st.integers(-2, 2))]
         outs.append({'label': lab, 'b': draw(st.integers(-3, 3)), 'w': w, 'pair': pair, 'gate': gate})
-    return {'outs': outs}
+    spec = {'outs': outs}
+    if options:
+        k = draw(st.integers(0, 9))
+        if k == 0:
+            spec['positional'] = True        # order-sensitive model (array-based model behind a wrapper without feature names)
+        elif k == 1:
+            spec['opt'] = [draw(st.integers(1, 3))]   # reads an optional key that only some observations carry
+        if len(outs) > 1 and draw(st.booleans()):
+            spec['rank_order'] = True        # key order of the output dict depends on the input
+        if draw(st.integers(0, 5)) == 0:
+            spec['out_scale'] = draw(st.sampled_from([[1, -11], [3, -14], [1, 6], [7, -30]]))
+    return spec
 
 
 @st.composite
@@ -72,7 +83,7 @@ def value_st():
 
 
 @st.composite
-def stream_st(draw, d, tmin, tmax, per_call=True):
+def stream_st(draw, d, tmin, tmax, per_call=True, variants=False):
     t = draw(st.integers(tmin, tmax))
     rows = []
     for i in range(t):
@@ -80,13 +91,17 @@ def stream_st(draw, d, tmin, tmax, per_call=True):
         if per_call:
             row['n_inner'] = draw(st.sampled_from([None, None, 1, 2, 3]))
             row['upd'] = True if i == 0 else draw(st.sampled_from([True, True, True, False]))
+        if variants:
+            row['perm'] = draw(st.sampled_from([0, 0, 0, 1, 2, 3]))       # key order of the observation dict
+            if draw(st.integers(0, 2)) == 0:
+                row['opt'] = draw(st.integers(-3, 3))                      # this observation carries the optional key 'opt0'
         rows.append(row)
     return rows
 
 
 @st.composite
 def config_st(draw, dmax=5, tmin=2, tmax=12, modes=('exact', 'float'), multi=True, storages=None, name_kinds=None,
-              lbib=True, extra=True, offsets=True):
+              lbib=True, extra=True, offsets=True, variants=True):
     d = draw(st.integers(1, dmax))
     n_extra = draw(st.sampled_from([0, 0, 0, 1, 2])) if extra else 0
     dt = d + n_extra
@@ -102,14 +117,40 @@ def config_st(draw, dmax=5, tmin=2, tmax=12, modes=('exact', 'float'), multi=Tru
         'n_inner': draw(st.integers(1, 3)),
         'storage': draw(storage_st(storages) if storages else storage_st()),
         'imputer': draw(imputer_st(d)),
-        'model': draw(model_st(dt, multi=multi)),
+        'model': draw(model_st(dt, multi=multi, options=variants)),
         'loss': loss,
         'lbib': draw(st.booleans()) if lbib else False,
         'seeds': [draw(gen.seed32), draw(gen.seed32)],
         'mode': draw(st.sampled_from(modes)),
-        'stream': draw(stream_st(dt, tmin, tmax)),
+        'stream': draw(stream_st(dt, tmin, tmax, variants=variants)),
     }
+    if variants:
+        # observations stored through the public update_storage() BEFORE the first explain_one (pre-filled / shared storage)
+        cfg['prefill'] = draw(st.sampled_from([0, 0, 0, 1, 2]))
+        cfg['defaults_container'] = draw(st.sampled_from(['dict', 'dict', 'defaultdict', 'missing']))
+        if draw(st.integers(0, 7)) == 0:
+            cfg['alpha'] = draw(st.sampled_from(['1/10000000000', '1/1000000']))     # very small but legal smoothing parameter
     return cfg
+
+
+def defaults_container(defaults, kind):
+    """The configured defaults as a plain dict, or as legal dict subclasses that compute values on demand."""
+    import collections
+    if kind == 'defaultdict' and defaults:
+        # the most common default value is produced by the factory, only the others are stored
+        vals = list(defaults.values())
+        common = max(vals, key=vals.count)
+        dd = collections.defaultdict(lambda: common)
+        for k, v in defaults.items():
+            if v != common:
+                dd[k] = v
+        return dd
+    if kind == 'missing':
+        class OnDemand(dict):
+            def __missing__(self, key):
+                return defaults[key]
+        return OnDemand()
+    return dict(defaults)
 
 
 def all_names(cfg):
@@ -153,7 +194,7 @@ class Harness:
         im = cfg['imputer']
         if im['kind'] == 'default':
             self.defaults = {n: num(v, self.mode) for n, v in zip(self.names, im['values'])}
-            inner = DefaultImputer(self.model, dict(self.defaults))
+            inner = DefaultImputer(self.model, defaults_container(self.defaults, cfg.get('defaults_container', 'dict')))
         else:
             self.defaults = None
             inner = MarginalImputer(self.model, im['strategy'], self.storage)
@@ -162,9 +203,24 @@ class Harness:
         self.alpha = Q(cfg['alpha']) if self.mode == 'exact' else float(Q(cfg['alpha']))
 
     def row(self, r):
-        x = {n: num(v, self.mode) for n, v in zip(self.all_names, r['x'])}
+        items = [(n, num(v, self.mode)) for n, v in zip(self.all_names, r['x'])]
+        p = r.get('perm') or 0
+        if p and len(items) > 1:
+            items = list(reversed(items)) if p % 2 else items[p // 2 % len(items):] + items[:p // 2 % len(items)]
+        x = dict(items)
+        if r.get('opt') is not None and self.cfg['model'].get('opt'):
+            x['opt0'] = num(r['opt'], self.mode)
         y = num(r['y'], self.mode)
         return x, y
+
+    def prefill(self, ex):
+        """Store cfg['prefill'] synthetic observations through the public update_storage() before the stream starts."""
+        rows = []
+        for j in range(self.cfg.get('prefill') or 0):
+            x, y = self.row({'x': [(-1) ** j * (j + 2) + i for i in range(len(self.all_names))], 'y': j})
+            ex.update_storage(x, y)
+            rows.append((x, y))
+        return rows
 
     def pfi(self):
         from ixai.explainer import IncrementalPFI
